@@ -510,6 +510,12 @@ pub fn suite(out: &mut Out, seed: u64, thorough: bool, mode: &str) {
 			id += 1;
 		}
 	}
+	if mode == "constant" {
+		out.line(&format!("C {} flags api_constant_renko", id));
+		crate::renko::constant_flags(out, &mut rng.fork(77));
+		out.line("E");
+		id += 1;
+	}
 	out.add("cases", id);
 	let _ = Error::WrongConfig;
 }
